@@ -19,6 +19,7 @@ the flags extracted from the Rust source, `Gen.cfg`) and, independently, on the 
 import SteelVerif.C10.Model
 import SteelVerif.C10.GenArms
 import SteelVerif.C10.Shapes
+import SteelVerif.C10.Mixed
 namespace SteelVerif.C10
 
 def parseInt? (s : String) : Option Int :=
@@ -216,21 +217,84 @@ def handleS2n (rest : List String) : String :=
     | none => "bad\tbad"
   | _ => "bad\tbad"
 
+/-! mixed exact / inexact requests: an operand `f:<16 hex digits>` is a double.  The model functions of Mixed.lean are
+run with the IEEE operations of the machine (Lean's compiled `Float`): only here do they get a meaning. -/
+
+def hexVal (c : Char) : Option Nat :=
+  if '0' ≤ c && c ≤ '9' then some (c.toNat - '0'.toNat)
+  else if 'a' ≤ c && c ≤ 'f' then some (c.toNat - 'a'.toNat + 10)
+  else none
+
+def parseBits (s : String) : Option Nat :=
+  if s.startsWith "f:" then
+    let ds := (s.drop 2).toString.toList
+    if ds.length = 16 then ds.foldlM (fun acc c => (hexVal c).map (fun d => acc * 16 + d)) 0 else none
+  else none
+
+def hostIEEE : IEEE where
+  add a b := (Float.ofBits a.toUInt64 + Float.ofBits b.toUInt64).toBits.toNat
+  mul a b := (Float.ofBits a.toUInt64 * Float.ofBits b.toUInt64).toBits.toNat
+  div a b := (Float.ofBits a.toUInt64 / Float.ofBits b.toUInt64).toBits.toNat
+  neg a := (-(Float.ofBits a.toUInt64)).toBits.toNat
+  one := 0x3ff0000000000000
+
+def hex16 (n : Nat) : String :=
+  let ds := (Nat.toDigits 16 n)
+  String.ofList (List.replicate (16 - ds.length) '0' ++ ds)
+
+def showMRes : MRes → String
+  | .flo b => if classify b == .nan then "f:nan" else "f:" ++ hex16 b
+  | .err e => showErr e
+  | .panic => "panic"
+  | .notMixed => "bad"
+
+def parseMixedOperand (s : String) : Option Operand :=
+  match parseBits s with
+  | some b => some (.flo b)
+  | none => if s.startsWith "f:" then none else (parseOperand s >>= operandNum).map .exact
+
+def handleMixed (cfg : Cfg) (viaRecip : Bool) (op : String) (a b : Operand) : String :=
+  match op with
+  | "add" => showMRes (mixedAdd hostIEEE a b)
+  | "sub" => showMRes (mixedSub hostIEEE a b)
+  | "mul" => showMRes (mixedMul hostIEEE a b)
+  | "div" => showMRes (mixedDiv hostIEEE cfg viaRecip a b)
+  | "eq" | "lt" | "gt" | "le" | "ge" =>
+    match mixedCmp a b with
+    | some o => showBool (ordHolds op o)
+    | none => "bad"
+  | "tof64" => match a with | .exact x => "f:" ++ hex16 (toF64 x) | _ => "bad"
+  | _ => "bad"
+
+def handleNumeric (cfg : Cfg) (op : String) (rest : List String) : String :=
+  match rest.mapM parseOperand with
+  | none => "bad\tbad"
+  | some ps =>
+    match ps.mapM operandNum with
+    | none => "bad\tbad"
+    | some nums =>
+      match variadicSym op with
+      | some sym => runVariadic cfg sym nums ++ "\t" ++ specVariadic sym (ps.map operandRat)
+      | none => runModel cfg op nums ++ "\t" ++ runSpec op (ps.map operandRat)
+
 def handle (cfg : Cfg) (line : String) : String :=
   let toks := (line.trimAscii.toString.splitOn " ").filter (· ≠ "")
   match toks with
   | [] => ""
   | "s2n" :: rest => handleS2n rest
-  | op :: rest =>
-    match rest.mapM parseOperand with
-    | none => "bad\tbad"
-    | some ps =>
-      match ps.mapM operandNum with
-      | none => "bad\tbad"
-      | some nums =>
-        match variadicSym op with
-        | some sym => runVariadic cfg sym nums ++ "\t" ++ specVariadic sym (ps.map operandRat)
-        | none => runModel cfg op nums ++ "\t" ++ runSpec op (ps.map operandRat)
+  | "tof64" :: [a] =>
+    (match parseMixedOperand a with
+     | some x => handleMixed cfg Gen.divViaReciprocal "tof64" x x ++ "\tundef"
+     | none => "bad\tbad")
+  | [op, a, b] =>
+    if a.startsWith "f:" || b.startsWith "f:" then
+      match parseMixedOperand a, parseMixedOperand b with
+      | some x, some y =>
+        -- second column: the same request with the one-division form of `/` (what IEEE division gives)
+        handleMixed cfg Gen.divViaReciprocal op x y ++ "\t" ++ handleMixed cfg false op x y
+      | _, _ => "bad\tbad"
+    else handleNumeric cfg op [a, b]
+  | op :: rest => handleNumeric cfg op rest
 
 partial def loop (cfg : Cfg) (h : IO.FS.Stream) (out : IO.FS.Stream) : IO Unit := do
   let line ← h.getLine
